@@ -64,6 +64,9 @@ type Exec struct {
 	onRead        func(st *State, l Loc)
 	nq            int
 	wroteAll      string
+	obsSeen       map[string]bool
+	immutKept     bool
+	nimm          int
 	beforeSeen    map[string]bool
 	acqSnap       map[string]*State
 	nacq          int
@@ -522,6 +525,7 @@ func (ex *Exec) run() {
 	ex.outSt = map[*ssa.BasicBlock]*State{}
 	ex.edge = map[[2]int]T{}
 	ex.heapWrites = map[string]bool{}
+	ex.obsSeen = map[string]bool{}
 	ex.beforeSeen = map[string]bool{}
 	ex.wholeWrites = map[string]bool{}
 	ex.globalWrites = map[string]bool{}
@@ -555,6 +559,15 @@ func (ex *Exec) run() {
 		// receivers are non-nil (a nil receiver panics at the first field access; call sites are checked separately)
 		if isRefType(fn.Params[0].Type()) {
 			vc.assume(TTrue, Gt(ex.regs[fn.Params[0]], IntLit(0)))
+		}
+	}
+	if ex.con != nil {
+		for callee, v := range ex.con.Observe {
+			var srt Sort = SBool
+			if f := ex.P.calleeByShortName(fn, callee); f != nil && f.Signature.Results().Len() > 0 {
+				srt = vc.sortOf(f.Signature.Results().At(0).Type())
+			}
+			st.ghost["obs:"+v] = vc.zeroOfSort(srt, nil)
 		}
 	}
 	ex.entry = st.clone()
@@ -676,6 +689,11 @@ func (ex *Exec) finish() {
 	vc := ex.vc
 	if ex.con == nil {
 		return
+	}
+	for callee, v := range ex.con.Observe {
+		if !ex.obsSeen[v] {
+			ex.fail("observe %s := %s: no call of %s found (anchor missing)", v, callee, callee)
+		}
 	}
 	for callee := range ex.con.Before {
 		if !ex.beforeSeen[callee] {
